@@ -382,11 +382,26 @@ async fn e2e_case(rep: &mut Report, rng: &mut Rng, npull: usize, stalled_raw: bo
   let total = 400u32;
   // readers
   let mut readers = vec![];
+  let sender_done = std::sync::Arc::new(std::sync::atomic::AtomicBool::new(false));
   for p in pulls.iter().cloned() {
+    let done = sender_done.clone();
     readers.push(tokio::spawn(async move {
       let mut got: Vec<Vec<Vec<u8>>> = vec![];
-      while let Ok(m) = p.recv_multipart().await {
-        got.push(m.into_iter().map(|f| f.data().unwrap_or(&[]).to_vec()).collect());
+      let t_r = std::time::Instant::now();
+      let mut idle = 0;
+      // silence only counts once the sender has finished (a starved sender is not a lost message)
+      while idle < 2 && t_r.elapsed() < Duration::from_secs(240) {
+        match p.recv_multipart().await {
+          Ok(m) => {
+            idle = 0;
+            got.push(m.into_iter().map(|f| f.data().unwrap_or(&[]).to_vec()).collect());
+          }
+          Err(_) => {
+            if done.load(std::sync::atomic::Ordering::SeqCst) {
+              idle += 1;
+            }
+          }
+        }
       }
       got
     }));
@@ -401,6 +416,7 @@ async fn e2e_case(rep: &mut Report, rng: &mut Rng, npull: usize, stalled_raw: bo
     slowest = slowest.max(t0.elapsed());
     sent.push(SentMsg { sender: 1, seq, dest: u32::MAX, frame_lens: lens, status: if r.is_ok() { SendStatus::Accepted } else { SendStatus::Refused } });
   }
+  sender_done.store(true, std::sync::atomic::Ordering::SeqCst);
   let mut per_peer = vec![];
   let mut all: Vec<Vec<Vec<u8>>> = vec![];
   for r in readers {
@@ -426,7 +442,7 @@ async fn e2e_case(rep: &mut Report, rng: &mut Rng, npull: usize, stalled_raw: bo
   if !kinds.is_empty() {
     rep.violation(format!("e2e_{}", kinds.join("+")), format!("PUSH -> {} PULLs (stalled raw peer: {}): {}", npull, stalled_raw, kinds.join("+")), json!({"findings": f.to_json(), "per_peer": per_peer}));
   }
-  if slowest > Duration::from_millis(1500) {
+  if slowest > util::scaled(Duration::from_millis(1500)) {
     rep.violation("e2e_send_blocked_while_peers_had_room".to_string(), format!("a PUSH send took {:?} although {} reading PULLs were connected (stalled raw peer: {})", slowest, npull, stalled_raw), json!({"per_peer": per_peer}));
   }
   if !stalled_raw && npull > 1 {
